@@ -10,3 +10,5 @@ open GN.Props.C10
 #print axioms sign_extension_exact
 #print axioms read_back_what_was_written
 #print axioms failure_leaves_buffer_unchanged
+#print axioms model_refines_spec
+#print axioms every_specified_name_is_registered
